@@ -10,7 +10,7 @@ Local Open Scope nat_scope.
    normally, loads only inside that haystack, and returns a candidate no later
    than any occurrence, or None only if there is none *)
 Definition pre_ok (x : list N) (pf : prefn) : Prop :=
-  forall a' h', satq (load_ok a' (length h') 0 0) (pf a' h')
+  forall a' an' h', Forall (fun b => (b < 256)%N) h' -> satq (load_ok a' (length h') an' (length x)) (pf a' h')
     (fun r => match r with
               | Some c => forall i, occurs_at x h' i = true -> c <= i
               | None => forall i, occurs_at x h' i = false
@@ -160,12 +160,12 @@ Qed.
 
 (* ------------------------------------------------------------------ *)
 Section Fwd.
-Variables (x h : list N) (tw : twoway) (a : nat).
+Variables (x h : list N) (tw : twoway) (a an : nat).
 
 Local Notation n := (length x).
 Local Notation c := (tw_cp tw).
 Local Notation P := (smallest_period x).
-Local Notation Q := (load_ok a (length h) 0 0).
+Local Notation Q := (load_ok a (length h) an (length x)).
 
 Hypothesis Hc : c < n.
 Hypothesis HP1 : 1 <= P.
@@ -174,6 +174,7 @@ Hypothesis HPp : is_period x P = true.
 Hypothesis Hmult : forall k, 1 <= k -> k <= Nat.max (P - 1) (n - 1 - c) ->
   local_period x c k = true -> k mod P = 0.
 Hypothesis Hbs : tw_byteset tw = byteset_new x.
+Hypothesis Hbytes : Forall (fun b => (b < 256)%N) h.
 
 (* the window at pos agrees with the needle on [lo, hi) *)
 Definition agree (pos lo hi : nat) : Prop :=
@@ -317,7 +318,7 @@ Qed.
 (* the prefilter step *)
 
 Lemma shifted_satq {A} pos (m : M A) (Pp : A -> Prop) : pos <= length h ->
-  satq (load_ok (a + pos) (length h - pos) 0 0) m Pp -> satq Q (shifted pos m) Pp.
+  satq (load_ok (a + pos) (length h - pos) an (length x)) m Pp -> satq Q (shifted pos m) Pp.
 Proof.
   intros Hpos (v & Hv & Hp & Ht). exists v. unfold shifted. cbn [fst snd].
   split; [exact Hv|]. split; [exact Hp|].
@@ -350,7 +351,10 @@ Proof.
   assert (pos <=? length h = true) as -> by (apply Nat.leb_le; lia).
   rewrite bind_guard_true.
   eapply satq_bind.
-  { apply shifted_satq; [lia|]. pose proof (Hok (a + pos) (skipn pos h)) as Hs.
+  { apply shifted_satq; [lia|].
+    assert (Forall (fun b => (b < 256)%N) (skipn pos h)) as Hsk.
+    { rewrite <- (firstn_skipn pos h) in Hbytes. apply Forall_app in Hbytes. tauto. }
+    pose proof (Hok (a + pos) an (skipn pos h) Hsk) as Hs.
     rewrite skipn_length in Hs. exact Hs. }
   intros [cand|] Hr; cbv zeta.
   - destruct (length h <? pos + cand + n) eqn:E.
@@ -486,13 +490,14 @@ End Fwd.
 (* ------------------------------------------------------------------ *)
 (* main theorem *)
 
-Theorem tw_find_correct : forall (x h : list N) (tw : twoway) (pre : option prefn) (a : nat) (st : prestate),
+Theorem tw_find_correct : forall (x h : list N) (tw : twoway) (pre : option prefn) (a an : nat) (st : prestate),
   tw_cert_fwd x tw = true ->
   tw_byteset tw = byteset_new x ->
   (forall pf, pre = Some pf -> pre_ok x pf /\ pre_mul_saturating = true) ->
-  satq (load_ok a (length h) 0 0) (tw_find tw pre a h x st) (fun r => fst r = find_spec x h).
+  Forall (fun b => (b < 256)%N) h ->
+  satq (load_ok a (length h) an (length x)) (tw_find tw pre a h x st) (fun r => fst r = find_spec x h).
 Proof.
-  intros x h tw pre a st Hcert Hbs Hpre.
+  intros x h tw pre a an st Hcert Hbs Hpre Hbytes.
   unfold tw_cert_fwd in Hcert. cbv zeta in Hcert.
   apply andb_true_iff in Hcert as [Hcert Hshift].
   apply andb_true_iff in Hcert as [Hc Hloc].
